@@ -639,6 +639,10 @@ Qed.
 Lemma retire_state r2 i : r_state (retire r2 i) = r_state r2.
 Proof. destruct (retire_reach r2 i) as (r3 & R & ->). cbn. apply reach_state; auto. Qed.
 
+Definition pass_rt (p:passres2) : rt := match p with PassDone2 _ r _ | PassExit2 _ r _ => r end.
+Definition pass_log (p:passres2) : list visit := match p with PassDone2 _ _ l | PassExit2 _ _ l => l end.
+Definition pass_result (p:passres2) : rresult := match p with PassDone2 x _ _ | PassExit2 x _ _ => x end.
+
 Inductive pass_run (b1 b2:bool) : rt -> nat -> rresult -> list visit -> passres2 -> Prop :=
 | pr_done r i x log : length (r_ctxs r) <= i -> pass_run b1 b2 r i x log (PassDone2 x r log)
 | pr_exit r i x log x1 r2 v : i < length (r_ctxs r) -> visit_ctx b1 b2 r i = Ok (x1, r2, v) -> r_exit_req r2 = true ->
